@@ -184,4 +184,172 @@ theorem line_range_exact (w : Wave) (hdt : 0 < w.dt) (hs : 0 ≤ w.start) (k : N
     (min ((l + 1) * P) (w.usedTs.length / k) * k - 1) (by omega) (by omega) _ _
     (getD_eq _ _ (by omega)) (getD_eq _ _ (by omega))
 
+/-- The bounds themselves: line `l` starts at the first used sample of pixel `l·P` and stops `δ`
+    after the last used sample of its last complete pixel. -/
+theorem line_range_bounds (w : Wave) (hdt : 0 < w.dt) (hs : 0 ≤ w.start) (k : Nat)
+    (hk : w.pixelSize = some k) (P : Nat) (hP : 0 < P) (δ : Int)
+    (rs : List (Int × Int)) (hrs : w.lineRangesExcl P δ = some rs) (l : Nat) (hl : l < rs.length) :
+    rs[l] = (w.usedTs.getD (l * P * k) 0,
+      w.usedTs.getD (min ((l + 1) * P) (w.usedTs.length / k) * k - 1) 0 + δ) := by
+  rw [lineRangesExcl_spec w hdt hs k hk P hP δ] at hrs
+  injection hrs with hrs
+  subst hrs
+  simp [Wave.numPix]
+
+/-- When no discarded sample lies between the first and the last used sample of a line (the
+    geometries of C02: dead time only between lines), the range selects exactly the line's samples
+    from the **raw** sample stream — so reducing any channel on that timeline over the range uses
+    the line's samples and nothing else. -/
+theorem line_range_exact_raw (w : Wave) (hdt : 0 < w.dt) (hs : 0 ≤ w.start) (k : Nat)
+    (hk : w.pixelSize = some k) (P : Nat) (hP : 0 < P) (δ : Int) (h1 : 1 ≤ δ) (h2 : δ ≤ w.dt)
+    (rs : List (Int × Int)) (hrs : w.lineRangesExcl P δ = some rs) (l : Nat) (hl : l < rs.length)
+    (hcont : ∀ t ∈ w.allTs, w.usedTs.getD (l * P * k) 0 ≤ t →
+      t ≤ w.usedTs.getD (min ((l + 1) * P) (w.usedTs.length / k) * k - 1) 0 → t ∈ w.usedTs) :
+    w.allTs.filter (fun t => decide (rs[l].1 ≤ t) && decide (t < rs[l].2))
+      = blockSamples w.usedTs k P l := by
+  have hex := (line_range_exact w hdt hs k hk P hP δ h1 h2 rs hrs)
+  rw [← hex.2 l hl]
+  have hb := line_range_bounds w hdt hs k hk P hP δ rs hrs l hl
+  have hk0 := pixelSize_pos w k hk
+  have hlt : l * P < w.usedTs.length / k := (lt_numBlocks_iff _ _ _ hP).mp (by rw [← hex.1]; exact hl)
+  have hm := mul_succ_le_of_lt_div _ _ _ hk0 hlt
+  have he2 : min ((l + 1) * P) (w.usedTs.length / k) * k ≤ w.usedTs.length / k * k :=
+    Nat.mul_le_mul_right _ (Nat.min_le_right _ _)
+  have he3 := Nat.div_mul_le_self w.usedTs.length k
+  have hP1 : (l + 1) * P = l * P + P := by rw [Nat.add_mul]; omega
+  have he1 : (l * P + 1) * k ≤ min ((l + 1) * P) (w.usedTs.length / k) * k :=
+    Nat.mul_le_mul_right _ (by omega)
+  rw [Nat.add_mul] at he1
+  have hlast : w.usedTs.getD (min ((l + 1) * P) (w.usedTs.length / k) * k - 1) 0 ∈ w.usedTs := by
+    rw [getD_eq _ _ (by omega)]; exact List.getElem_mem _
+  conv => rhs; rw [sublist_eq_filter_mem hdt (allTs_sep w hdt) (usedTs_sublist w), List.filter_filter]
+  generalize w.usedTs.getD (l * P * k) 0 = A at hcont hb
+  generalize w.usedTs.getD (min ((l + 1) * P) (w.usedTs.length / k) * k - 1) 0 = B at hcont hb hlast
+  apply List.filter_congr
+  intro t ht
+  rw [hb]
+  simp only
+  by_cases hr : A ≤ t ∧ t < B + δ
+  · have hle : t ≤ B := by
+      rcases Int.lt_or_le B t with h | h
+      · have := (allTs_sep w hdt).of_lt hdt ((usedTs_sublist w).subset hlast) ht h
+        omega
+      · exact h
+    have := hcont t ht hr.1 hle
+    simp [hr.1, hr.2, this]
+  · have : ¬(A ≤ t) ∨ ¬(t < B + δ) := by
+      by_cases h : A ≤ t
+      · right; intro h'; exact hr ⟨h, h'⟩
+      · left; exact h
+    rcases this with h | h <;> simp [h]
+
+/-- Ranges are non-empty, ordered and disjoint: `t0(l) < t1(l) ≤ t0(l+1)`. -/
+theorem line_ranges_ordered (w : Wave) (hdt : 0 < w.dt) (hs : 0 ≤ w.start) (k : Nat)
+    (hk : w.pixelSize = some k) (P : Nat) (hP : 0 < P) (δ : Int) (h1 : 1 ≤ δ) (h2 : δ ≤ w.dt)
+    (rs : List (Int × Int)) (hrs : w.lineRangesExcl P δ = some rs) (l : Nat) (hl : l < rs.length) :
+    rs[l].1 < rs[l].2 ∧ ∀ (hl' : l + 1 < rs.length), rs[l].2 ≤ rs[l + 1].1 := by
+  have hex := (line_range_exact w hdt hs k hk P hP δ h1 h2 rs hrs)
+  have hk0 := pixelSize_pos w k hk
+  have hsep := usedTs_sep w hdt
+  have hlt : l * P < w.usedTs.length / k := (lt_numBlocks_iff _ _ _ hP).mp (by rw [← hex.1]; exact hl)
+  have hm := mul_succ_le_of_lt_div _ _ _ hk0 hlt
+  have he2 : min ((l + 1) * P) (w.usedTs.length / k) * k ≤ w.usedTs.length / k * k :=
+    Nat.mul_le_mul_right _ (Nat.min_le_right _ _)
+  have he3 := Nat.div_mul_le_self w.usedTs.length k
+  have hP1 : (l + 1) * P = l * P + P := by rw [Nat.add_mul]; omega
+  have he1 : (l * P + 1) * k ≤ min ((l + 1) * P) (w.usedTs.length / k) * k :=
+    Nat.mul_le_mul_right _ (by omega)
+  rw [Nat.add_mul] at he1
+  rw [line_range_bounds w hdt hs k hk P hP δ rs hrs l hl]
+  constructor
+  · simp only
+    rw [getD_eq _ _ (by omega), getD_eq _ _ (by omega)]
+    have := hsep.getElem_le (by omega) (i := l * P * k)
+      (j := min ((l + 1) * P) (w.usedTs.length / k) * k - 1) (by omega) (by omega)
+    simp only [id] at this
+    omega
+  · intro hl'
+    rw [line_range_bounds w hdt hs k hk P hP δ rs hrs (l + 1) hl']
+    simp only
+    have hlt' : (l + 1) * P < w.usedTs.length / k :=
+      (lt_numBlocks_iff _ _ _ hP).mp (by rw [← hex.1]; exact hl')
+    have hm' := mul_succ_le_of_lt_div _ _ _ hk0 hlt'
+    rw [Nat.min_eq_left (by omega)] at he1 ⊢
+    rw [getD_eq _ _ (by omega), getD_eq _ _ (by omega)]
+    have := hsep.getElem_lt (i := (l + 1) * P * k - 1) (j := (l + 1) * P * k) (by omega) (by omega)
+    simp only [id] at this
+    omega
+
+/-! ## Frame ranges of a scan -/
+
+/-- **Every reported frame range contains exactly the used samples of its frame** (dead time
+    excluded), for the repaired `frame_timestamp_ranges`; `framePinned_eq` / `frame_single_complete`
+    say when the code as pinned computes the same. Frames are blocks of `L·P` pixels. -/
+theorem frame_range_exact (w : Wave) (hdt : 0 < w.dt) (hs : 0 ≤ w.start) (k : Nat)
+    (hk : w.pixelSize = some k) (P L : Nat) (hP : 0 < P) (hL : 0 < L) (δ : Int) (h1 : 1 ≤ δ)
+    (h2 : δ ≤ w.dt) (rs : List (Int × Int)) (hrs : w.frameRanges P L false δ = some (some rs)) :
+    rs.length = numBlocks (w.usedTs.length / k) (L * P) ∧
+    (∀ (f : Nat) (hf : f < rs.length),
+      w.usedTs.filter (fun t => decide (rs[f].1 ≤ t) && decide (t < rs[f].2))
+        = blockSamples w.usedTs k (L * P) f) ∧
+    (∀ (f : Nat) (hf : f < rs.length),
+      rs[f].1 < rs[f].2 ∧ ∀ (hf' : f + 1 < rs.length), rs[f].2 ≤ rs[f + 1].1) := by
+  have hPL : 0 < L * P := Nat.mul_pos hL hP
+  rw [frameRanges_excl w hdt hs k hk P L hPL δ] at hrs
+  cases hx : w.lineRangesExcl (L * P) δ with
+  | none => rw [hx] at hrs; cases hrs
+  | some rs' =>
+    rw [hx] at hrs
+    simp only [Option.map_some, Option.some.injEq] at hrs
+    subst hrs
+    have hex := line_range_exact w hdt hs k hk (L * P) hPL δ h1 h2 rs' hx
+    exact ⟨hex.1, hex.2, fun f hf => line_ranges_ordered w hdt hs k hk (L * P) hPL δ h1 h2 rs' hx f hf⟩
+
+/-- The code as pinned computes the repaired ranges whenever the reconstruction has more than one
+    frame, or its only frame is complete. -/
+theorem frame_single_complete (w : Wave) (hdt : 0 < w.dt) (k : Nat)
+    (hk : w.pixelSize = some k) (P L : Nat) (hP : 0 < P) (hL : 0 < L) (incl : Bool) (δ : Int)
+    (h : numBlocks (w.usedTs.length / k) (L * P) ≠ 1 ∨ w.usedTs.length / k = L * P) :
+    w.frameRangesPinned P L incl δ = w.frameRanges P L incl δ :=
+  framePinned_eq w hdt k hk P L (Nat.mul_pos hL hP) incl δ h
+
+/-- Finding F9, kernel-checked: a scan of 2×3 pixels stopped after 5 pixels (lead-in of two
+    samples, 2 samples per pixel, `dt = δ = 10`).  The pinned formula reports the frame as
+    `[0, 1130)`: the raw window then contains the two lead-in samples, and `downsampled_over` drops
+    the range altogether (it is not covered by the channel), so the frame total is not reproduced.
+    The repaired formula reports `[1020, 1130)` and reproduces it (the photon stream is zero in the
+    dead sample between the two lines: a frame range is one interval). -/
+theorem F9_witness :
+    let w : Wave := ⟨1000, 10, [0, 0, 1, 2, 1, 2, 1, 2, 0, 1, 2, 1, 2]⟩
+    let data : List Int := [5, 7, 1, 2, 3, 4, 5, 6, 0, 7, 8, 9, 10]
+    w.frameRangesPinned 3 2 false 10 = some (some [(0, 1130)]) ∧
+    w.frameRanges 3 2 false 10 = some (some [(1020, 1130)]) ∧
+    w.allTs.filter (fun t => decide (0 ≤ t) && decide (t < 1130)) ≠ blockSamples w.usedTs 2 6 0 ∧
+    sumOver ⟨1000, 10, data⟩ [(0, 1130)] = [] ∧
+    sumOver ⟨1000, 10, data⟩ [(1020, 1130)] = lineTotals 6 (pixelSums w.iw data 0) := by
+  decide
+
+/-! ## Dead time included -/
+
+/-- With dead time included every range starts at the same instant as without (the first used
+    sample of the line), and when the line period is constant consecutive ranges are exactly
+    contiguous: `t1(l) = t0(l+1)`. -/
+theorem dead_time_contiguous (w : Wave) (hdt : 0 < w.dt) (k : Nat)
+    (hk : w.pixelSize = some k) (P : Nat) (hP : 0 < P)
+    (ri : List (Int × Int)) (hri : w.lineRangesIncl P = some (some ri)) :
+    ri.length = numBlocks (w.usedTs.length / k) P ∧
+    (∀ (l : Nat) (hl : l < ri.length), ri[l].1 = w.usedTs.getD (l * P * k) 0) ∧
+    (∀ (l : Nat) (hl : l + 1 < ri.length),
+      w.usedTs.getD ((l + 1) * P * k) 0 - w.usedTs.getD (l * P * k) 0
+        = w.usedTs.getD (1 * P * k) 0 - w.usedTs.getD (0 * P * k) 0 →
+      ri[l].2 = ri[l + 1].1) := by
+  rw [lineRangesIncl_spec w hdt k hk P hP] at hri
+  split at hri
+  · simp only [Option.some.injEq] at hri
+    subst hri
+    refine ⟨by simp, fun l hl => by simp, fun l hl hper => ?_⟩
+    simp only [List.getElem_map, List.getElem_range]
+    omega
+  · simp at hri
+
 end Verif.C03
